@@ -812,7 +812,7 @@ def need_complete(prog, opts, mode):
     return opts["max_proofs"] == 1
 
 
-NCYCLIC_QUICK = 90
+NCYCLIC_QUICK = 80
 
 CODES = {2: "a returned proof that is not flagged partial is not a valid derivation of the goal",
          3: "no complete valid proof returned for a fact of the evaluated store"}
@@ -957,7 +957,7 @@ def run(ck):
         optss.append(o)
         origin.append("corpus:" + nm)
     ncorpus = len(progs)
-    for k in range(ck.n(180, 5000)):
+    for k in range(ck.n(160, 5000)):
         x = rng.random()
         transforms = x < 0.15
         p = gen_program(rng, transforms)
